@@ -31,7 +31,7 @@ RULE = ('cases: matrices 1x1..4x4 (rectangular for svd / pinv / jack_matmul / ei
         '(condition number <= ~10, spectral gaps >= ~0.5), entries Obs / CObs / mixed with plain numbers (float, int, complex), chains: '
         'regular (identical lists, 1-2 replicas), irregular (gapped / irregular lists, nested / overlapping between entries, replica subsets), '
         'two ensembles (+ covariance inputs); operations matmul (2-4 factors), inv, cholesky, det, eigh, eig, eigv, pinv, svd, jack_matmul, '
-        'einsum (9 contraction forms, explicit and implicit output subscripts; single chain with regular / irregular list, operands on two different '
+        'einsum (14 contraction forms, explicit and implicit output subscripts incl. free labels not in alphabetical order of appearance; single chain with regular / irregular list, operands on two different '
         'chains of equal length as a negative row); non-trivial: an identity whose terms have non-zero fluctuations was judged on a '
         'matrix of dimension >= 2 (1x1 cases count when an entry is complex or lists had to be aligned); distinct = digest of (operation, '
         'shapes, central values, chain layout)')
@@ -980,6 +980,14 @@ EINSUM_FORMS = {
     'outer': ('i,j->ij', lambda a, b, c: [(a,), (b,)]),
     'full': ('ij,ij->', lambda a, b, c: [(a, b), (a, b)]),
     'batched': ('ij,kj->ik', lambda a, b, c: [(a, b), (c, b)]),
+    # free labels that do NOT appear in alphabetical order (numpy's implicit rule sorts them: the result is the transpose of
+    # what 'order of appearance' would give)
+    'rev_matmul': ('kj,ji->ik', lambda a, b, c: [(a, b), (b, c)]),
+    'rev_transpose': ('ji->ij', lambda a, b, c: [(a, b)]),
+    'rev_letters': ('cb,ba->ac', lambda a, b, c: [(c, b), (b, a)]),
+    'rev_three': ('jk,kl,li->ij', lambda a, b, c: [(a, b), (b, c), (c, a)]),
+    'rev_hadamard': ('ji,ji->ij', lambda a, b, c: [(a, b), (a, b)]),
+    'rev_matvec': ('ji,j->i', lambda a, b, c: [(a, b), (a,)]),
 }
 
 
@@ -1020,7 +1028,12 @@ def case_einsum(ctx, rng, form, entries, layout, implicit):
             ctx.nontrivial.add(digest('einsum-several-chains', used, [central(d) for d in descs]))
             return
         raise Skip()
-    samples, lay = jackmat.contraction(sub, descs)
+    # implicit mode: numpy's own einsum rule, applied sample by sample in the reference
+    samples, lay = jackmat.contraction(call_sub, descs)
+    if implicit:
+        check, _ = jackmat.contraction(sub, descs)
+        if check.shape != samples.shape or not np.array_equal(check, samples):
+            raise AssertionError('explicit form %r is not numpy\'s reading of %r' % (sub, call_sub))
     nconf = len(lay['idl'])
     got = pe.linalg.einsum(call_sub, *[np.array(o, copy=True) for o in ops])
     gotarr = np.asarray(got, dtype=object)
@@ -1029,7 +1042,24 @@ def case_einsum(ctx, rng, form, entries, layout, implicit):
         ctx.violation('einsum:implicit-output-subscripts-put-the-sample-axis-first',
                       {'what': what, 'got_shape': gotarr.shape, 'expected_shape': samples.shape[:-1], 'N': nconf})
         return
-    if not judge_jack(ctx, got, samples, lay, 'einsum', what, nconf):
+    if implicit:
+        labels = lhs.replace(',', '')
+        appearance = ''.join(l for l in labels if labels.count(l) == 1)
+        t = ctx.trial()
+        okj = judge_jack(t, got, samples, lay, 'einsum', what, nconf)
+        if t.violations and appearance != out:
+            alt, _ = jackmat.contraction(lhs + '->' + appearance, descs)
+            t2 = ctx.trial()
+            judge_jack(t2, got, alt, lay, 'einsum', what, nconf)
+            if not t2.violations:
+                ctx.ev()
+                ctx.violation('einsum:implicit-output-labels-in-order-of-appearance-instead-of-alphabetical',
+                              {'what': what, 'numpy_output': out, 'library_output': appearance})
+                return
+        ctx.absorb(t)
+        if not okj:
+            return
+    elif not judge_jack(ctx, got, samples, lay, 'einsum', what, nconf):
         return
     tape = matid.Tape()
     [matid.matrix_duals(tape, d) if d and isinstance(d[0], list) else [matid.entry_dual(tape, e) for e in d] for d in descs]
